@@ -294,7 +294,8 @@ TracePrefix ==
 
 TraceSkip == /\ st = "run" /\ SkipBlank /\ UNCHANGED <<k, j, st>>
 
-Matching == {t \in Expected(text, pos) : TokEq(t, Rec[k].toks[j])}
+\* (total: TLC evaluates every disjunct of TraceReject's guard, also when an earlier one already holds)
+Matching == IF j <= NT /\ pos <= Len(text) THEN {t \in Expected(text, pos) : TokEq(t, Rec[k].toks[j])} ELSE {}
 
 TraceEmit ==
     /\ st = "run" /\ j <= NT
